@@ -12,7 +12,7 @@ class Scenario:
         self.sh = None; self.op = None; self.ops = None; self.x = None; self.out = None; self.value = None
 
 
-def run(D, shape, kw=None, split=None, with_output=True, env=None, duals=False, prices_in_output=False):
+def run(D, shape, kw=None, split=None, with_output=True, env=None, duals=False, prices_in_output=False, warmup=False):
     """the scenario itself -- identical code in lifted and pristine mode"""
     eao = lift.import_eao()
     kw = kw or {}
@@ -21,6 +21,11 @@ def run(D, shape, kw=None, split=None, with_output=True, env=None, duals=False, 
     sc.blocks = []
     for a in sh.portf.assets:
         _record_blocks(a, sc.blocks)
+    if warmup:
+        # earlier calls on the very same portfolio and grid objects (their results are discarded)
+        sh.portf.setup_optim_problem(sh.prices, sh.tg)
+        sh.portf.create_cost_samples([sh.prices], sh.tg)
+        del sc.blocks[:]
     if split is None:
         sc.op = op = sh.portf.setup_optim_problem(sh.prices, sh.tg)
         sc.ops = [op]
@@ -118,13 +123,13 @@ def observe(case, kwargs, env, rq):
     """pristine side: same scenario on floats"""
     D = lift.Domain(theta=env)
     sc = run(D, kwargs['shape'], kwargs.get('kw'), kwargs.get('split'), kwargs.get('with_output', True), env=env,
-             duals=kwargs.get('duals', False), prices_in_output=kwargs.get('prices_in_output', False))
+             duals=kwargs.get('duals', False), prices_in_output=kwargs.get('prices_in_output', False), warmup=kwargs.get('warmup', False))
     return observation(sc)
 
 
-def explore(shape, kw=None, split=None, level='A', with_output=True, duals=False, prices_in_output=False, cap=5000):
+def explore(shape, kw=None, split=None, level='A', with_output=True, duals=False, prices_in_output=False, cap=5000, warmup=False):
     def build(D):
-        return run(D, shape, kw, split, with_output, duals=duals, prices_in_output=prices_in_output)
+        return run(D, shape, kw, split, with_output, duals=duals, prices_in_output=prices_in_output, warmup=warmup)
     return lift.explore_build(build, level=level, cap=cap)
 
 
